@@ -116,6 +116,9 @@ func (tq *taskQueue) Shutdown() {
 // kind represents the kind of the Kubernetes resources of a task
 type kind int
 
+// ignoredTask is the kind of a task that sync does not act on
+const ignoredTask kind = -1
+
 // resources
 const (
 	ingress = iota
